@@ -151,6 +151,13 @@ class SunVoxReader(Reader):
                 src_mod = modules[in_link]
                 if not src_mod:
                     raise RuntimeError()
+                out_links = src_mod.out_links
+                if out_link_idx < len(out_links) and out_links[out_link_idx] != -1:
+                    # Slot is already taken by another link; use the lowest free one.
+                    out_link_idx = (
+                        out_links.index(-1) if -1 in out_links else len(out_links)
+                    )
+                    in_link_slots[in_link_idx] = out_link_idx
                 place(src_mod, out_link_idx, mod.index, in_link_idx)
         # inLinkSlots are not written out by SunVox if all zeros; initialize if missing,
         # giving each link the lowest slot of its source that is still free.
